@@ -69,7 +69,7 @@ func (yf *yamlFormatter) generate(
 
 		if structType, ok := declType.Type.(*codegen.StructType); ok {
 			for _, f := range structType.Fields {
-				if f.Name == "AdditionalProperties" {
+				if isAdditionalPropertiesField(f) {
 					out.Printlnf("st := reflect.TypeOf(Plain{})")
 					out.Printlnf("for i := range st.NumField() {")
 					out.Indent(1)
